@@ -522,3 +522,39 @@ Proof.
 Qed.
 
 End UnsetWF.
+
+(* ---------- pop / del c[i] / clear as sequences of removals ---------- *)
+Section PopClear.
+Variable m : mm.
+Hypothesis W : wf_mm m.
+
+Lemma remove_or_unset_WF s k y :
+  WF m s -> f_isref (fd m (snd k)) = true -> WF m (remove_or_unset m s k y).
+Proof.
+  intros H Hr. destruct k as [x f]. unfold remove_or_unset. cbn [snd] in *.
+  destruct (f_many (fd m f)) eqn:Hm.
+  - destruct (vmem (VObj y) (vals s (x, f))) eqn:E; [|exact H].
+    apply WF_coll_remove_full; [exact W | exact H | exact Hm | exact Hr | apply vmem_obj; exact E].
+  - apply WF_set_none_full; assumption.
+Qed.
+
+Lemma veqb_refl v : veqb v v = true.
+Proof.
+  destruct v as [|o|z|z|b|e l|h]; unfold veqb; simpl; rewrite ?Nat.eqb_refl, ?Z.eqb_refl; try reflexivity;
+    try (destruct b; reflexivity).
+Qed.
+
+(* removing by value what sits at a position of a duplicate-free list *)
+Lemma remove_first_at (v : value) l n :
+  nth_error l n = Some v ->
+  (forall i w, (i < n)%nat -> nth_error l i = Some w -> veqb w v = false) ->
+  remove_first veqb v l = Some (remove_at n l).
+Proof.
+  revert n; induction l as [|w ws IH]; intros n Hn Hbefore; [destruct n; discriminate|].
+  destruct n as [|n]; simpl in *.
+  - inversion Hn; subst. rewrite veqb_refl. reflexivity.
+  - rewrite (Hbefore 0 w ltac:(lia) eq_refl).
+    rewrite (IH n Hn); [reflexivity|]. intros i w' Hi Hw'. apply (Hbefore (S i) w'); [lia | exact Hw'].
+Qed.
+
+End PopClear.
